@@ -146,7 +146,13 @@ impl VM {
         let poll_interval = self.watchdog.poll_every();
         let mut counter = 0;
 
+        #[cfg(smlxl_storage_layout_extractor_verif)]
+        crate::verif::loop_enter(crate::verif::Site::VmMain);
+
         while let Ok(instruction) = self.current_instruction() {
+            #[cfg(smlxl_storage_layout_extractor_verif)]
+            crate::verif::tick(crate::verif::Site::VmMain);
+
             let instruction_pointer = self
                 .thread_queue
                 .front_mut()
